@@ -53,8 +53,7 @@ func runC02Sort(c *Ctx) {
 		construct := fmt.Sprintf("(*Linter).check|return at line %s", "")
 		construct = "(*Linter).check|return of diagnostics"
 		if isNilConst(ret.Results[0]) {
-			c.ok(construct+" (nil)", ret.Pos(), "returns no diagnostics")
-			continue
+			continue // the constant nil holds no diagnostics: nothing to decide
 		}
 		good := false
 		for i, s := range sorts {
@@ -69,7 +68,7 @@ func runC02Sort(c *Ctx) {
 		}
 	}
 	// no unstable sort of diagnostics anywhere
-	n := 0
+	n, unstable := 0, 0
 	for _, fn := range p.Funcs {
 		eachInstr(fn, func(_ *ssa.BasicBlock, _ int, in ssa.Instruction) {
 			call, ok := in.(ssa.CallInstruction)
@@ -90,11 +89,14 @@ func runC02Sort(c *Ctx) {
 				t = mi.X.Type()
 			}
 			if isErrorSliceType(t) || strings.Contains(typeStr(t), "*Error") {
+				unstable++
 				c.bad(FuncName(fn)+"|"+name+" of diagnostics", call.Pos(), "unstable sort applied to diagnostics: ties at one position get an arbitrary order")
 			}
 		})
 	}
-	c.ok("package|sort calls", 0, fmt.Sprintf("%d sorting calls examined, none is an unstable sort of diagnostics", n))
+	if unstable == 0 {
+		c.ok("package|sort calls", 0, fmt.Sprintf("%d sorting calls examined, none is an unstable sort of diagnostics", n))
+	}
 }
 
 func runC02Go(c *Ctx) {
